@@ -205,7 +205,7 @@ impl_primitive!(
     (3, UndoGet),
     (4, UndoInsert),
     (3, UndoRemove),
-    (1(0), TryClose),
+    (1(0), TryClose, Mutating),
     ([2], UnBracket),
     ([1], UndoRows),
     ([1], UndoInventory),
